@@ -1852,3 +1852,20 @@ MA('C01', 'discretized division skips zero denominators',
    'self.tspace._divide(x1.tensor, x2.tensor, out.tensor)',
    'np.divide(x1.tensor.data, x2.tensor.data, out=out.tensor.data, where=(x2.tensor.data != 0))',
    'DiscretizedSpace._divide')
+MA('C08', 'conjugate KL finite above one where the prior vanishes',
+   'odl/solvers/functional/default_functionals.py',
+   'KullbackLeiblerConvexConj._call',
+   'if not np.isfinite(res) or np.any(x.asarray() > 1):...',
+   'if not np.isfinite(res):\n    return np.inf\nelse:\n    return res',
+   'prior with zeros')
+MA('C08', 'conjugate KL infinite already on the boundary of its domain',
+   'odl/solvers/functional/default_functionals.py',
+   'KullbackLeiblerConvexConj._call',
+   'if not np.isfinite(res) or np.any(x.asarray() > 1):...',
+   'if not np.isfinite(res) or np.any(x.asarray() >= 1):\n    return np.inf\nelse:\n    return res',
+   'prior with zeros')
+MA('C08', 'translation merges its linear term into a quadratic perturbation and drops the quadratic part',
+   'odl/solvers/functional/functional.py', 'FunctionalTranslation.convex_conj',
+   'return FunctionalQuadraticPerturb(self.functional.convex_conj, linear_term=self.translation)',
+   'cc = self.functional.convex_conj\nif isinstance(cc, FunctionalQuadraticPerturb):\n    return FunctionalQuadraticPerturb(cc.functional, linear_term=cc.linear_term + self.translation, constant=cc.constant)\nreturn FunctionalQuadraticPerturb(cc, linear_term=self.translation)',
+   'translated')
